@@ -487,5 +487,61 @@ def wf_resolved(prog: Program) -> RuleResult:
     return r
 
 
+def cd_index(prog: Program) -> RuleResult:
+    """Node indices of the diagram are small integers starting at 0 - the first class handed to the diagram has index 0.  "Was it added?" is a
+    question for `is None`; a truth test takes class number 0 for a class that was never added ('in any order': the result then depends on
+    which class comes first)."""
+    r = RuleResult("CD-INDEX", "node indices are compared with None, never tested for truth", floor=1)
+    mod_sfx = ("class_diagrams.class_diagram", "ormatic.ormatic", "entity_query_language.symbol_graph")
+    n = 0
+    for f in sorted(prog.functions.values(), key=lambda x: x.qual):
+        if not f.module.name.endswith(mod_sfx):
+            continue
+        idx = set()
+        for x in walk_local(f.node):
+            if isinstance(x, ast.Assign):
+                tg, v = x.targets[0], x.value
+                pairs = list(zip(tg.elts, v.elts)) if isinstance(tg, ast.Tuple) and isinstance(v, ast.Tuple) and len(tg.elts) == len(v.elts) else [(tg, v)]
+                for t, vv in pairs:
+                    if isinstance(t, ast.Name) and isinstance(vv, ast.Attribute) and vv.attr == "index":
+                        idx.add(t.id)
+
+        def is_index(e) -> bool:
+            return (isinstance(e, ast.Attribute) and e.attr == "index") or (isinstance(e, ast.Name) and e.id in idx)
+
+        uses = [x for x in walk_local(f.node) if is_index(x)]
+        if not uses:
+            continue
+        n += 1
+        bad = None
+        for x in walk_local(f.node):
+            tests = []
+            if isinstance(x, (ast.If, ast.While, ast.IfExp, ast.Assert)):
+                tests.append(x.test)
+            if isinstance(x, ast.comprehension):
+                tests += x.ifs
+            if isinstance(x, ast.BoolOp):
+                tests += x.values
+            if isinstance(x, ast.UnaryOp) and isinstance(x.op, ast.Not):
+                tests.append(x.operand)
+            for t in tests:
+                todo = [t]
+                while todo:
+                    y = todo.pop()
+                    if isinstance(y, ast.BoolOp):
+                        todo += y.values
+                    elif isinstance(y, ast.UnaryOp) and isinstance(y.op, ast.Not):
+                        todo.append(y.operand)
+                    elif is_index(y):
+                        bad = bad or (x, y)
+        r.check(bad is None, f"{f.short}#indices-not-truth-tested", site(f, bad[0]) if bad else site(f), src(bad[0])[:80] if bad else f"{len(uses)} use(s) of a node index",
+                "indices are passed on, compared or tested against None",
+                f"`{src(bad[1]) if bad else ''}` is tested for truth in `{src(bad[0])[:60] if bad else ''}`: index 0 - the first class of the diagram - counts as missing (a self-association of the first "
+                f"class is dropped, and only when that class comes first)")
+    if n < 1:
+        raise AnalysisError("CD-INDEX: no function uses a node index")
+    return r
+
+
 def run(prog: Program, tier: str) -> List[RuleResult]:
-    return [guard(lambda: wf_table(prog)), guard(lambda: cd_edges(prog)), guard(lambda: cd_readonly(prog)), guard(lambda: cd_memo(prog)), guard(lambda: cd_multi(prog)), guard(lambda: _shared_default(prog)), guard(lambda: wf_resolved(prog))]
+    return [guard(lambda: wf_table(prog)), guard(lambda: cd_edges(prog)), guard(lambda: cd_readonly(prog)), guard(lambda: cd_memo(prog)), guard(lambda: cd_multi(prog)), guard(lambda: _shared_default(prog)), guard(lambda: wf_resolved(prog)), guard(lambda: cd_index(prog))]
